@@ -71,6 +71,7 @@ UNITS = {
     ],
     "C14": [
         {"name": "C14_FN", "test": "TestC14_FN", "quick": 40000, "thorough": 3000000, "shards": 8},
+        {"name": "C14_CONC", "test": "TestC14_CONC", "quick": 240, "thorough": 6000, "shards": 8},
         {"name": "C14_FUZZ", "test": "FuzzNTLMMessage", "quick": 0, "thorough": 0, "shards": 1, "fuzz": True, "fuzztime_thorough": "120s", "exclusive": True},
     ],
     "C15": [
